@@ -33,6 +33,50 @@ type LRUCase struct {
 	Callback bool    `json:"callback"`
 	KeyKind  string  `json:"keykind"` // "string" | "int" | "struct"
 	Ops      []LRUOp `json:"ops"`
+	// ValKind: how the stored values are wrapped: "" = the int itself, "slice" = []int{v},
+	// "map" = map[int]bool{v: true}, "boxed" = a struct with a slice field (values a cache holds are
+	// often not comparable with ==, the library's own cached type information is of the last kind)
+	ValKind string `json:"valkind,omitempty"`
+}
+
+type boxedVal struct {
+	Name string
+	S    []int
+}
+
+func lruWrap(kind string, v int) interface{} {
+	switch kind {
+	case "slice":
+		return []int{v}
+	case "map":
+		return map[int]bool{v: true}
+	case "boxed":
+		return boxedVal{Name: "b", S: []int{v}}
+	}
+	return v
+}
+
+// lruUnwrap is the int inside a value handed back by the cache (false: not a value we stored).
+func lruUnwrap(gv interface{}) (int, bool) {
+	switch x := gv.(type) {
+	case int:
+		return x, true
+	case []int:
+		if len(x) == 1 {
+			return x[0], true
+		}
+	case map[int]bool:
+		for k := range x {
+			if len(x) == 1 {
+				return k, true
+			}
+		}
+	case boxedVal:
+		if len(x.S) == 1 && x.Name == "b" {
+			return x.S[0], true
+		}
+	}
+	return 0, false
 }
 
 type structKey2 struct {
@@ -107,7 +151,7 @@ func checkLRUCase(c LRUCase) (string, lruStats) {
 		if !ok {
 			name = fmt.Sprintf("?%v", k)
 		}
-		iv, isInt := v.(int)
+		iv, isInt := lruUnwrap(v)
 		if v == nil && !isInt {
 			iv = nilMark
 		}
@@ -134,7 +178,7 @@ func checkLRUCase(c LRUCase) (string, lruStats) {
 				cache.Store(gk, nil)
 				mv = nilMark
 			} else {
-				cache.Store(gk, op.Val)
+				cache.Store(gk, lruWrap(c.ValKind, op.Val))
 			}
 			info := m.Store(op.Key, mv)
 			if info.Overwrite {
@@ -157,7 +201,7 @@ func checkLRUCase(c LRUCase) (string, lruStats) {
 					return fmt.Sprintf("step %d Load(%s): value %v, model: the nil value stored last", i, op.Key, gv), st
 				}
 			} else if wok {
-				if iv, ok := gv.(int); !ok || iv != wv {
+				if iv, ok := lruUnwrap(gv); !ok || iv != wv {
 					return fmt.Sprintf("step %d Load(%s): value %v, model %d (most recently stored)", i, op.Key, gv, wv), st
 				}
 			}
@@ -216,7 +260,7 @@ func checkLRUCase(c LRUCase) (string, lruStats) {
 		if e.V == nilMark {
 			want = append(want, "") // a nil value is dumped as the empty line
 		} else {
-			want = append(want, fmt.Sprint(e.V))
+			want = append(want, fmt.Sprint(lruWrap(c.ValKind, e.V)))
 		}
 	}
 	var got []string
@@ -247,7 +291,7 @@ func checkLRUCase(c LRUCase) (string, lruStats) {
 				return fmt.Sprintf("final sweep Load(%s): value %v, model: nil", k, gv), st
 			}
 		} else if wok {
-			if iv, ok := gv.(int); !ok || iv != wv {
+			if iv, ok := lruUnwrap(gv); !ok || iv != wv {
 				return fmt.Sprintf("final sweep Load(%s): value %v, model %d", k, gv, wv), st
 			}
 		}
@@ -342,6 +386,7 @@ func genLRUCase(t *rapid.T, minLen int) LRUCase {
 		Cap:      rapid.SampledFrom([]int{0, 1, 2, 3, 4, 8, 64, 64, 513, 600}).Draw(t, "cap"), // (513, 600: above the default size 512)
 		Callback: rapid.Bool().Draw(t, "callback"),
 		KeyKind:  rapid.SampledFrom([]string{"string", "int", "struct", "nilfirst", "printalike", "printalike-struct"}).Draw(t, "keykind"),
+		ValKind:  rapid.SampledFrom([]string{"", "", "", "slice", "map", "boxed"}).Draw(t, "valkind"),
 	}
 	nkeys := c.Cap + rapid.IntRange(1, 4).Draw(t, "extraKeys")
 	if rapid.IntRange(0, 4).Draw(t, "fewKeys") == 0 && c.Cap > 1 {
@@ -402,6 +447,9 @@ func TestC09(t *testing.T) {
 			st.classify()
 			ev.Class(fmt.Sprintf("cap=%d", c.Cap))
 			ev.Class("keys=" + c.KeyKind)
+			if c.ValKind != "" {
+				ev.Class("values not comparable with == (" + c.ValKind + ")")
+			}
 			ev.Case(c.key(), st.nontrivial(), func() interface{} { return c })
 			if msg != "" {
 				ev.Fail(t, "C09", "random", c, "%s", msg)
